@@ -107,3 +107,47 @@ Fixpoint list_existsb_eq (s : string) (l : list string) : bool :=
 
 Fixpoint nodupb (l : list string) : bool :=
   match l with [] => true | x :: xs => negb (list_existsb_eq x xs) && nodupb xs end.
+
+
+(* ---- format(Decimal(repr(x)), 'f') for the repr of a finite Python float, with ".0" added when no point is left:
+        the positional spelling of a float (a repr without exponent is positional already).  None for inf / nan ---- *)
+Fixpoint str_take (n : nat) (s : string) : string :=
+  match n, s with
+  | O, _ => EmptyString
+  | S n', String c r => String c (str_take n' r)
+  | _, EmptyString => EmptyString
+  end.
+Fixpoint str_drop (n : nat) (s : string) : string :=
+  match n, s with
+  | O, _ => s
+  | S n', String _ r => str_drop n' r
+  | _, EmptyString => EmptyString
+  end.
+Fixpoint str_zeros (n : nat) : string := match n with O => EmptyString | S n' => String "0" (str_zeros n') end.
+
+Definition py_positional (r : string) : option string :=
+  let neg := starts_with_char "-" r in
+  let body := if neg then str_drop 1 r else r in
+  if str_forallb (fun c => is_digit c || Ascii.eqb c "." || Ascii.eqb c "e" || Ascii.eqb c "+" || Ascii.eqb c "-") body
+  then
+    match str_split "e" body with
+    | [m] => Some r
+    | [m; ex] =>
+        match string_to_z (str_remove_char "+" ex) with
+        | None => None
+        | Some e =>
+            let parts := str_split "." m in
+            let ip := match parts with x :: _ => x | [] => EmptyString end in
+            let fp := match parts with _ :: y :: _ => y | _ => EmptyString end in
+            let digits := (ip ++ fp)%string in
+            let pos := (Z.of_nat (String.length ip) + e)%Z in
+            let len := Z.of_nat (String.length digits) in
+            let text :=
+              if (len <=? pos)%Z then (digits ++ str_zeros (Z.to_nat (pos - len)) ++ ".0")%string
+              else if (0 <? pos)%Z then (str_take (Z.to_nat pos) digits ++ "." ++ str_drop (Z.to_nat pos) digits)%string
+              else ("0." ++ str_zeros (Z.to_nat (- pos)) ++ digits)%string in
+            Some (if neg then String "-" text else text)
+        end
+    | _ => None
+    end
+  else None.
